@@ -4,8 +4,8 @@ Decided by: spec/ComptimeOwn.tla - a state machine with the tracer's own state (
 `_used` flags, frozen containers, the unused-undroppable registry) and one action per statement of a
 comptime body.  TLC (a) checks that this mechanism enforces the property as stated on ghost variables
 (LinearOnce, NoOwnedMutation, RegistryExact, Rejected) and (b) enumerates every body up to a bound over
-{qubit, int, affine, arrays, tuples, structs, nested} x {owned, borrowed, local} and prints it with the
-verdict (ok / error + reason).
+{qubit, int, affine single objects (opaque type, Option[array[int, 2]]), arrays, tuples, structs, nested} x
+{owned, borrowed, local} and prints it with the verdict (ok / error + reason + statement that raises).
 Binding (spec -> code): every printed body is rendered as a @guppy.comptime function, compiled with
 /repo's guppylang and validated; required: GuppyError/GuppyComptimeError <=> verdict error, successes
 validate, nothing crashes.
@@ -17,7 +17,7 @@ import re
 
 import lib
 
-ACTIONS = ("Use", "Borrow", "Mut", "SetAttr", "Finish")
+ACTIONS = ("Use", "Borrow", "UseTup", "Mut", "SetAttr", "Finish")
 MUTATORS = ["append", "extend", "insert", "pop", "popuse", "remove", "clear", "sort", "reverse", "setitem",
             "setalias", "delitem", "iadd", "imul1", "imul2", "reinit"]
 
@@ -65,47 +65,80 @@ def dedupe(cases):
     return out
 
 
+LEAF_TYPES = ("Q", "I", "F", "O")       # subjects that stay ONE traced object
+AFFINE_SINGLE = ("F", "O")             # ... non-copyable but droppable
+
+
+def compile_order(cases, seed):
+    """Priority order for a time budget: first every body over a single-object subject (few, and the only ones
+    that can use an affine object twice), then round-robin over strata (type, origin, set of statement kinds)
+    with a seeded shuffle inside each stratum, so whatever prefix gets compiled exercises every mutator on
+    every origin and type."""
+    rnd = random.Random(seed)
+    first = [i for i, c in enumerate(cases) if c["ty"] in LEAF_TYPES]
+    rnd.shuffle(first)
+    strata = {}
+    for i, c in enumerate(cases):
+        if c["ty"] not in LEAF_TYPES:
+            strata.setdefault((c["ty"], c["origin"], tuple(sorted({st["op"] for st in c["prog"]}))), []).append(i)
+    groups = [strata[k] for k in sorted(strata)]
+    for g in groups:
+        rnd.shuffle(g)
+    rnd.shuffle(groups)
+    rest = [g[k] for k in range(max(map(len, groups), default=0)) for g in groups if k < len(g)]
+    return first + rest, len(first)
+
+
 def compile_all(ctx, cases, budget_s):
-    """Compile every case with /repo (16 processes).  The first tenth is always done; if the measured rate
-    says the rest does not fit into budget_s, the rest is subsampled (seeded) - reported in coverage."""
+    """Compile cases with /repo on the worker pool, in compile_order, batch after batch until everything is done
+    or budget_s is used up (then the remainder is left out - reported in coverage)."""
+    import time
+
     import own_lib
     import pool
 
     def go(idx):
         n = max(1, min(len(idx), 16 * 4))
         chunks = [idx[k::n] for k in range(n)]
-        res = pool.map_jobs(own_lib.run_chunk, [[cases[i] for i in ch] for ch in chunks], chunksize=1, maxtasks=None)
+        res = pool.map_jobs(own_lib.run_chunk, [[cases[i] for i in ch] for ch in chunks], chunksize=1)
         for ch, rs in zip(chunks, res):
             for i, r in zip(ch, rs):
                 out[i] = r
 
-    import time
-
     out = [None] * len(cases)
-    # order: round-robin over strata (origin, set of statement kinds), seeded shuffle inside a stratum, so that
-    # whatever prefix gets compiled exercises every mutator on every origin
-    rnd = random.Random(ctx.seed)
-    strata = {}
-    for i, c in enumerate(cases):
-        strata.setdefault((c["origin"], tuple(sorted({st["op"] for st in c["prog"]}))), []).append(i)
-    groups = [strata[k] for k in sorted(strata)]
-    for g in groups:
-        rnd.shuffle(g)
-    rnd.shuffle(groups)
-    order = [g[k] for k in range(max(map(len, groups))) for g in groups if k < len(g)]
-    head = order[: max(300, len(groups), len(order) // 20)]
+    order, nfirst = compile_order(cases, ctx.seed)
     t0 = time.time()
-    go(head)
-    rate = len(head) / max(time.time() - t0, 1e-3)
-    rest = order[len(head):]
-    fit = int(rate * max(budget_s - (time.time() - t0), 0))
-    if fit < len(rest):
-        ctx.log(f"compile rate {rate:.0f}/s: {len(rest)} remaining bodies do not fit into {budget_s}s, sampling {fit}")
-        rest = rest[:fit]
-    if rest:
-        go(rest)
-    done = [i for i in range(len(cases)) if out[i] is not None]
+    pos, batch = 0, max(300, nfirst)
+    while pos < len(order):
+        tb = time.time()
+        nxt = order[pos:pos + batch]
+        go(nxt)
+        pos += len(nxt)
+        rate = len(nxt) / max(time.time() - tb, 1e-3)
+        remaining = budget_s - (time.time() - t0)
+        if pos < len(order) and remaining <= 0:
+            ctx.log(f"compile budget of {budget_s}s used up after {pos} of {len(order)} bodies ({rate:.0f}/s)")
+            break
+        batch = max(100, min(2 * len(nxt), int(rate * remaining)))
+    done = [i for i in order[:pos]]
     return [cases[i] for i in done], [out[i] for i in done]
+
+
+def vacuity_guard(cases):
+    """The compiled set must contain what the affine single-object class is about."""
+    need = {f"{t}: second use of the object (spec: reuse error)":
+            any(c["ty"] == t and c["reason"] == "reuse" for c in cases) for t in AFFINE_SINGLE}
+    need.update({f"{t}: dropped unused and accepted":
+                 any(c["ty"] == t and c["origin"] != "borrowed" and not c["prog"] and c["ret"] == [0] and c["verdict"] == "ok"
+                     for c in cases) for t in AFFINE_SINGLE})
+    need["Q: dropped unused is a leak"] = any(c["ty"] == "Q" and not c["prog"] and c["reason"] == "leak" for c in cases)
+    need["return x, x"] = any(c["ret"] == [9] for c in cases)
+    need["moved into a tuple then used"] = any(
+        [s["op"] for s in c["prog"]][:2] == ["usewith", "use"] and c["ty"] in AFFINE_SINGLE for c in cases)
+    missing = [k for k, v in need.items() if not v]
+    if missing:
+        raise lib.Machinery(f"vacuous: no compiled body for {missing}")
+    return sorted(need)
 
 
 def op_at(c, k):
@@ -199,6 +232,7 @@ def run(ctx):
     ctx.log(f"{n_emitted} distinct bodies ({n_exh} exhaustive, {n_sim} simulated)")
     cases, results = compile_all(ctx, cases, int(os.environ.get("VERIF_C22_BUDGET") or ctx.pick(150, 1200)))
     ctx.log(f"compiled {len(cases)}")
+    guards = [] if os.environ.get("VERIF_C22_CFG") else vacuity_guard(cases)
     viol, stats = evaluate(ctx, cases, results)
     report(ctx, viol)
     rnd = random.Random(ctx.seed)
@@ -215,13 +249,16 @@ def run(ctx):
         "distinct_nontrivial": sum(1 for c in cases if nontrivial(c)),
         "rule": "body = <= N statements (use / pass borrowed / every mutating list method / struct attribute "
                 "assignment, on the subject or a component) + return of subject, first component or nothing, over "
-                "9 subject types x {owned, borrowed, local}; non-trivial = >= 2 statements, or 1 statement and a return",
+                "10 subject types x {owned, borrowed, local}; non-trivial = >= 2 statements, or 1 statement and a return",
         "samples": [own_render(c) for c in rnd.sample(cases, min(4, len(cases)))],
         "exhaustive": len(cases) == n_emitted,
         "bodies_emitted_by_tlc": n_emitted,
         "exhaustive_bodies": n_exh, "simulated_bodies": n_sim,
         "spec_verdicts": by_verdict,
         "bodies_per_mutator": muts,
+        "vacuity_guards_met": guards,
+        "bodies_over_affine_single_object": sum(1 for c in cases if c["ty"] in AFFINE_SINGLE),
+        "affine_single_object_reuse_bodies": sum(1 for c in cases if c["ty"] in AFFINE_SINGLE and c["reason"] == "reuse"),
         "impl_status": {s: sum(1 for r in results if r["status"] == s) for s in {r["status"] for r in results}},
         **stats,
         "violation_keys": {k: len(v) for k, v in viol.items()},
@@ -305,6 +342,21 @@ def selftest(ctx):
         raise lib.Machinery("selftest: the reference body for the dropped-statement test is itself flagged")
     if judge(c, own_lib.run_case(dict(c, prog=[]))) is None:
         raise lib.Machinery("selftest: a body with its consuming statement dropped still matched verdict ok")
+    # 4. the affine single-object class: a second use of an Option / opaque affine object is expected to be an
+    #    error at the second use; pretending the spec allowed it (what a droppability-keyed check would do) is flagged
+    for t in AFFINE_SINGLE:
+        for ops, ret in ((["use", "use"], [0]), (["usepair"], [0]), ([], [9]), (["usewith", "use"], [0])):
+            c = next((c for c in cases if c["ty"] == t and c["origin"] == "local"
+                      and [s["op"] for s in c["prog"]] == ops and c["ret"] == ret), None)
+            if c is None or c["reason"] != "reuse":
+                raise lib.Machinery(f"selftest: spec has no reuse error for {t} {ops} ret={ret}: {c}")
+            r = own_lib.run_case(c)
+            if judge(c, r) is not None:
+                raise lib.Machinery(f"selftest: reference body {t} {ops} is itself flagged: {judge(c, r)}")
+            if judge(dict(c, verdict="ok", reason="-", at=0), r) is None:
+                raise lib.Machinery(f"selftest: allowing the second use of {t} {ops} was accepted")
+            if judge(c, dict(r, status="ok")) is None:
+                raise lib.Machinery(f"selftest: a compiled HUGR for the second use of {t} {ops} was accepted")
 
 
 if __name__ == "__main__":
